@@ -54,6 +54,8 @@ type eventSpec struct {
 
 type caseSpec struct {
 	Op     string      `json:"op"` // pipe | pipe-grpc | grpc | samp | chunk | coll
+	Kind    string     `json:"kind,omitempty"`     // conc: send | final
+	K       int        `json:"k,omitempty"`        // conc / slowclient: results collected before the timer flush
 	Multi   bool       `json:"multi,omitempty"`    // byrepo: more than one entry in RepoURLs
 	FlushAt int        `json:"flush_at,omitempty"` // coll: number of results sent before waiting for the timer; -1 = no timer
 	Events []eventSpec `json:"events,omitempty"`
@@ -327,6 +329,10 @@ func emit(w *gen.Writer, cs caseSpec, class string) {
 	case "byrepo":
 		in, impl, verdict, key := runByRepo(cs)
 		w.Emit(gen.Case{In: in, Impl: impl, Go: verdict, Key: key, Class: class, Nontrivial: len(cs.Events[0].Files) >= 2, Detail: detail})
+	case "conc":
+		emitConc(w, cs.Kind, cs.K)
+	case "slowclient":
+		runSlowClient(w, cs.Events, cs.K, class)
 	case "chunk":
 		sizes, chunks := runChunker(cs.Sizes)
 		ids := make([]int, len(sizes))
@@ -450,6 +456,17 @@ func main() {
 	for i, n := 0, f.N(300, 6000); i < n; i++ {
 		cs, class := genByRepoCase(r)
 		emit(w, cs, class)
+	}
+	// the collector's two goroutines with a slow consumer: forced interleavings
+	for rep, n := 0, f.N(1, 6); rep < n; rep++ {
+		for _, k := range []int{1, 3} {
+			emitConc(w, "send", k)
+			emitConc(w, "final", k)
+		}
+	}
+	for i, n := 0, f.N(4, 40); i < n; i++ {
+		evs, k := genSlowClientCase(r)
+		runSlowClient(w, evs, k, "slow-client-during-timer-flush")
 	}
 	singleCounterCases(w)
 	runEndToEnd(w, r, f)
